@@ -219,6 +219,15 @@ def run(ctx):
     d2_single_reader(ctx, reader)
     size_check_obligations(ctx, 'D3')
     C16.d3_refuse_non_arrays(ctx)
+    # "refuse and change nothing": delete/truncate by path validate by constructing the handle, so the constructors
+    # (and what they build: DataDir, MetaData) must not touch the file system — whatever they changed before the
+    # validation raised stays changed
+    for cname in ('Array', 'RaggedArray'):
+        init = ctx.repo.cls(cname).methods.get('__init__')
+        eff = [e for e in ctx.E.may(init) if e.kind in MUTATING] if init is not None else []
+        ctx.decide(init is not None and not eff, 'R-OWN', 'D4', init, None, f'constructor-effect-free::{cname}',
+                   f'{cname}.__init__ performs no file-system mutation (a refused open / delete / truncate by path changes nothing)',
+                   detail='opening can change the directory before validation refuses it: ' + '; '.join(e.describe() for e in eff[:3]))
     d5_open(ctx)
 
 
